@@ -41,6 +41,9 @@ ASSUMPTIONS = [
     'the result store is opened lazily by its first request and scans the whole tree: a nested put in flight at '
     'that moment loses its temp file and then fails (modelled; nothing partial becomes visible); after a restart '
     'the result store indexes and may evict the nested store\'s entry files (S18, existing behaviour, modelled)',
+    'the one injected rename failure is a shard directory <root>/x/y on another file system (a tiny tmpfs mounted in a '
+    'private mount namespace; cases are skipped, and counted as such, where mounting is impossible): commit must fail '
+    'cleanly (error, temp dropped, nothing at the final path, reservation released)',
     'no other process touches the cache directory',
 ]
 TRUSTED = ['hook H2: verif_hooks::sync at put.before_reserve / put.reserved / put.written / put.committed / '
@@ -264,6 +267,18 @@ def gen_cases(rng, tier):
                     t[5] = 3
             for p in prefixes(alt):
                 out.append([cap, 1, init, alt, p])
+    # a shard directory on another file system (mount point): the final rename of every put into it fails
+    e = elens()
+    for cap, init, ths in [
+            (100000, [ini(K1, 'C', 5)], [put(K1, 'A', 2), get(K1)]),
+            (100000, [], [put(K1, 'A'), get(K1)]),
+            (100000, [ini(K1, 'C', 5)], [put(K1, 'A'), put(K1, 'B')]),
+            (100000, [ini(K3, 'C', 5)], [put(K1, 'A'), put(K2, 'B')]),
+            (e['A'] + e['C'] - 1, [ini(K2, 'C', 5)], [put(K1, 'A'), get(K2)]),
+            (100000, [ini(K1, 'C', 5)], [put(K1, 'A', 1, 1), get(K1)]),
+            (100000, [ini(K1, 'C', 5)], [put(K3, 'A'), get(K1), get(K3)])]:
+        for p in prefixes(ths):
+            out.append([cap, 0, init, ths, p, [K1]])
     if tier == 'thorough':
         for name, cap, init, ths in three:
             alt = [list(t) for t in reversed(ths)]
@@ -296,8 +311,12 @@ def is_temp_path(p):
     return p.split(b'/')[-1].startswith(TEMP)
 
 
+def mounted(case):
+    return case[5] if len(case) > 5 else []
+
+
 def analyse(case):
-    cap, order, init, ths, sched = case
+    cap, order, init, ths, sched = case[:5]
     occ = [[] for _ in ths]
     for pos, t in enumerate(sched):
         if t < len(ths):
@@ -308,9 +327,12 @@ def analyse(case):
 def monitor(case, out):
     cap, init, ths, sched, occ = analyse(case)
     vs = []
+    if out == [b'skipped']:
+        return []       # mount points cannot be made in this environment
     if not isinstance(out, list) or len(out) != 13 or not isinstance(out[0], list) or len(out[0]) != len(ths):
         return ['malformed implementation output: %r' % (out,)]
     rs = out[0]
+    nr = [k[:2] for k in mounted(case)]     # shards whose final rename fails (mount points)
     mkeys = sorted(set([f[1] for f in init if f[0] == b'main'] + [t[1] for t in ths if not is_pp(t)]))
     pkeys = sorted(set([f[1] for f in init if f[0] == b'pp'] + [t[1] for t in ths if is_pp(t)]))
     # (store, key, pid) -> entry length;  store: False = result store, True = nested store
@@ -344,6 +366,9 @@ def monitor(case, out):
                     if len(occ[i]) < need:
                         vs.append('%s gave up before its write had failed' % what)
                     continue  # its own write failed: the call must end with an error and leave nothing behind
+                if t[0] == b'put' and t[1][:2] in nr and len(occ[i]) >= need:
+                    # the shard is on another file system: the rename cannot succeed, the store must fail cleanly
+                    continue
                 if is_pp(t) and main_opened_at is not None and len(occ[i]) >= need \
                         and occ[i][0] < main_opened_at < occ[i][need - 1]:
                     # the result store was opened while this nested put was in flight: its scan of the whole tree
@@ -501,11 +526,13 @@ def monitor(case, out):
 
 
 def nontrivial(case, out):
-    return len(case[4]) > 0
+    return len(case[4]) > 0 and out != [b'skipped']
 
 
 def stats(case, out):
     ks = ['threads=%d' % len(case[3]), 'sched_len=%d' % len(case[4]), 'order=%d' % case[1]]
+    if mounted(case):
+        ks.append('shard_on_other_fs' + ('(skipped)' if out == [b'skipped'] else ''))
     try:
         for t, r in zip(case[3], out[0]):
             ks.append('%s=%s' % (t[0].decode(), r.decode() if isinstance(r, bytes) else r[0].decode()))
@@ -519,23 +546,25 @@ def stats(case, out):
 
 
 def shrink(case):
-    cap, order, init, ths, sched = case
+    cap, order, init, ths, sched = case[:5]
+    tail = case[5:]
     for i in range(len(sched)):
-        yield [cap, order, init, ths, sched[:i] + sched[i + 1:]]
+        yield [cap, order, init, ths, sched[:i] + sched[i + 1:]] + tail
     for i in range(len(init)):
-        yield [cap, order, init[:i] + init[i + 1:], ths, sched]
+        yield [cap, order, init[:i] + init[i + 1:], ths, sched] + tail
 
 
 def neighbours(case):
-    cap, order, init, ths, sched = case
-    yield [cap, 1 - order, init, ths, sched]
+    cap, order, init, ths, sched = case[:5]
+    tail = case[5:]
+    yield [cap, 1 - order, init, ths, sched] + tail
     for i in range(len(sched) - 1):
         if sched[i] != sched[i + 1]:
             s2 = list(sched)
             s2[i], s2[i + 1] = s2[i + 1], s2[i]
-            yield [cap, order, init, ths, s2]
+            yield [cap, order, init, ths, s2] + tail
     for p in prefixes(ths)[:300]:
-        yield [cap, order, init, ths, p]
+        yield [cap, order, init, ths, p] + tail
 
 
 def extra(rep, known):
@@ -544,7 +573,7 @@ def extra(rep, known):
 
 
 def legs(tier):
-    return [Leg('disk', gen_cases, monitor=monitor, nontrivial=nontrivial, shrink=shrink, neighbours=neighbours,
+    return [Leg('disk', gen_cases, compare=lambda m, i: m == i or i == '(skipped)', monitor=monitor, nontrivial=nontrivial, shrink=shrink, neighbours=neighbours,
                 stats=stats,
                 rule='EXHAUSTIVE: every distinct prefix (= crash point) of every interleaving of 32 one- and two-call '
                      'shapes on both stores (put/put same key, put/get, capacity pressure, get/get, eviction of an open '
